@@ -423,6 +423,10 @@ func unmarshalDynamic(buf []byte, path cty.Path) (cty.Value, error) {
 		return cty.NilVal, path.NewErrorf("missing value in dynamically-typed value")
 	}
 
+	// A type description can carry optional-attribute annotations, which
+	// are meaningful only for type constraints and never for a value's type.
+	t = t.WithoutOptionalAttributesDeep()
+
 	val, err := Unmarshal([]byte(valBody), t)
 	if err != nil {
 		return cty.NilVal, path.NewError(err)
